@@ -50,6 +50,18 @@ class SurfaceSubdivision(Logger):
         self.mesh = _instanciate_raw_mesh_data(self.mesh, 2)
 
     @allowed_mesh_types(SurfaceMesh)
+    def _complete_edges(self):
+        """Adds to the edge container the sides of faces that are not edges yet (operations of this block
+        that rewrite faces do not maintain the edge list)"""
+        known = set(keyify(e) for e in self.mesh.edges)
+        for F in self.mesh.faces:
+            n = len(F)
+            for i in range(n):
+                e = keyify(F[i], F[(i+1)%n])
+                if e not in known:
+                    known.add(e)
+                    self.mesh.edges.append(e)
+
     def triangulate_face(self, face_id: int) :
         """Triangulates the face "face_id"
 
@@ -103,6 +115,7 @@ class SurfaceSubdivision(Logger):
             n (int, optional): Number of times the subdivision is applied. Defaults to 1.
         """
         self.triangulate()
+        self._complete_edges()
 
         for _ in range(n):
             newMeshData = RawMeshData()
@@ -148,6 +161,7 @@ class SurfaceSubdivision(Logger):
         for _ in range(repeat):
             self.subdivide_triangles_3quads()
             self.triangulate()
+        self._complete_edges()
 
     @allowed_mesh_types(SurfaceMesh)
     def subdivide_triangles_3quads(self) -> SurfaceMesh:
@@ -155,6 +169,7 @@ class SurfaceSubdivision(Logger):
             If the mesh is not triangulated, will triangulate the mesh first.
         """
         self.triangulate()
+        self._complete_edges()
         newMeshData = RawMeshData()
         newMeshData.vertices += self.mesh.vertices
         # cut every edge in half
